@@ -536,6 +536,28 @@ def unhashable_key_programs():
                 for w in ws:
                     x = wrap[w](x)
                 out.append((name + "@" + ">".join(ws), x))
+    # deep nesting: the unhashable object 5 .. 120 wrappers down (one kind of wrapper, and the kinds in rotation)
+    names = list(wrap)
+    for depth in (5, 9, 15, 16, 17, 18, 31, 33, 64, 120):
+        for name, prog in (base[0], base[4], base[3]):
+            for style in ("tuple", "ref", "call", "mix"):
+                x = prog
+                for d in range(depth):
+                    x = wrap[names[d % len(names)] if style == "mix" else style](x)
+                out.append(("%s@%s^%d" % (name, style, depth), x))
+    return out
+
+def deep_unhashable_tokens():
+    """value tokens for the Dict API: an unhashable object under 5 .. 120 Tuple / Ref / Call wrappers"""
+    out = []
+    for depth in (5, 15, 16, 17, 18, 33, 64, 120):
+        for leaf in ("l[ ]", "a:61", "m{ }"):
+            for style in ("t", "r", "c", "mix"):
+                x = leaf
+                for d in range(depth):
+                    k = "trc"[d % 3] if style == "mix" else style
+                    x = {"t": "t( %s )", "r": "R( %s )", "c": "C( g:6d:43 t( %s ) )"}[k] % x
+                out.append(x)
     return out
 
 @check("C17")
@@ -587,7 +609,7 @@ def c17(res, rng, tier):
             for n in (8, 9, 10, 17) for pos in (0, n - 2, n - 1)]
     for size in (0, 1, 7, 8, 9, 100):
         fill = " ".join("S i:%d i:%d" % (j, j * j) for j in range(size))
-        for u in UNHASHABLE + wide:
+        for u in UNHASHABLE + wide + (deep_unhashable_tokens() if size in (0, 9) else []):
             for op in ("G %s" % u, "S %s i:0" % u, "D %s" % u):
                 alines.append(("dict %s L I %s L I" % (fill, op)).replace("  ", " "))
                 ameta.append((size, u, op[0]))
